@@ -42,6 +42,7 @@ namespace vf
       const char* ptr = nullptr;
       std::size_t byte = 0, line = 0, column = 0;
       const char* end = nullptr;
+      const void* input_id = nullptr;  // address of the input object (nested sub-inputs of rematch differ)
    };
 
    struct violation
@@ -117,6 +118,7 @@ namespace vf
       bool lazy = false;
       bool check_positions = true;
       bool check_model = true;
+      bool check_visited = false;  // sound only for grammars without until / strict (see DESIGN 1.8)
       bool aborted = false;  // fuel: nothing is judged
       std::uint64_t fuel = 400000;
       std::uint64_t nframes = 0;
@@ -147,6 +149,12 @@ namespace vf
          window_avail = avail;
          window_frame = stack.empty() ? std::type_index( typeid( void ) ) : stack.back().ti;
       }
+      const void* top_input = nullptr;
+      bool raise_in_subinput = false;
+      bool in_subinput() const
+      {
+         return !stack.empty() && top_input && stack.back().before.input_id != top_input;
+      }
       bool window_flagged = false;
       const char* window_what = "";
       std::size_t window_amount = 0, window_avail = 0;
@@ -165,6 +173,8 @@ namespace vf
          eol_observations = position_observations = 0;
          hook_bumps = hook_peeks = boundary_touches = 0;
          window_flagged = false;
+         top_input = nullptr;
+         raise_in_subinput = false;
       }
 
       void flag( const char* prop, const std::string& sig, const std::string& detail )
@@ -213,7 +223,7 @@ namespace vf
             ++eol_observations;
          }
          if( pos.byte != b || pos.line != l || pos.column != c ) {
-            flag( "C06", std::string( "position:" ) + where + ( lazy ? ":lazy" : ":eager" ), std::string( where ) + " of " + rule + " at offset " + std::to_string( off( p ) ) + ": reported byte/line/column " + std::to_string( pos.byte ) + "/" + std::to_string( pos.line ) + "/" + std::to_string( pos.column ) + ", consumed prefix gives " + std::to_string( b ) + "/" + std::to_string( l ) + "/" + std::to_string( c ) );
+            flag( "C06", std::string( "position:" ) + where + ( lazy ? ":lazy" : ":eager" ) + ( in_subinput() ? ":subinput" : "" ), std::string( where ) + " of " + rule + " at offset " + std::to_string( off( p ) ) + ": reported byte/line/column " + std::to_string( pos.byte ) + "/" + std::to_string( pos.line ) + "/" + std::to_string( pos.column ) + ", consumed prefix gives " + std::to_string( b ) + "/" + std::to_string( l ) + "/" + std::to_string( c ) );
          }
       }
 
@@ -223,6 +233,7 @@ namespace vf
          snap s;
          s.ptr = in.current();
          s.end = in.end();
+         s.input_id = static_cast< const void* >( &in );
          if constexpr( In::tracking_mode_v == pegtl::tracking_mode::eager ) {
             s.byte = in.byte();
             s.line = in.line();
@@ -564,6 +575,7 @@ namespace vf
             return;
          }
          ++m.raises;
+         m.raise_in_subinput = m.in_subinput();
          // raise< R > is legal only while the innermost open attempt is a must / raise rule (or a slot, our own raising leaf)
          if( m.stack.empty() || !m.stack.back().may_raise ) {
             m.flag( "C08", "raise-outside-must", "raise for " + rn + " while the innermost open attempt is neither a must nor a raise rule" );
@@ -618,6 +630,9 @@ namespace vf
                if( pre.k != pm::FUEL && !( pre.k == pm::OK && pre.end == e ) ) {
                   m.flag( "C04", "action-for-non-match", "action of " + rn + " invoked for [" + std::to_string( b ) + "," + std::to_string( e ) + ") but the formalism does not match that span there" );
                }
+               else if( m.check_visited && !m.model->visited_act.count( std::make_tuple( f->node, b, m.off( f->before.end ) ) ) ) {
+                  m.flag( "C04", "action-where-actions-are-disabled", "action of " + rn + " invoked for [" + std::to_string( b ) + "," + std::to_string( e ) + ") but the formalism evaluates that rule there only with actions disabled (look-ahead or disabled section)" );
+               }
             }
          }
       }
@@ -643,6 +658,9 @@ namespace vf
          if( ++m.nframes > m.fuel ) {
             m.aborted = true;
             throw fuel_exhausted();
+         }
+         if( m.stack.empty() ) {
+            m.top_input = before.input_id;
          }
          frame f;
          f.ti = std::type_index( ti );
@@ -891,7 +909,8 @@ namespace vf
       [[nodiscard]] static bool match( ParseInput& in, States&&... st )
       {
          monitor& m = mon();
-         const std::size_t depth = obs::enter( typeid( Rule ), A == pegtl::apply_mode::action, M == pegtl::rewind_mode::required, Control< Rule >::enable, m.take( in ), rule_is_lookahead< Rule >::value, rule_may_raise< Rule >::value || is_slot< Rule >::value );
+         // `enabled` = are this observer's hooks expected for Rule (a wrapping control such as state_control may enable more rules for itself)
+         const std::size_t depth = obs::enter( typeid( Rule ), A == pegtl::apply_mode::action, M == pegtl::rewind_mode::required, pegtl::normal< Rule >::enable, m.take( in ), rule_is_lookahead< Rule >::value, rule_may_raise< Rule >::value || is_slot< Rule >::value );
          constexpr bool eager = ( ParseInput::tracking_mode_v == pegtl::tracking_mode::eager );
          bool result;
          try {
@@ -995,13 +1014,14 @@ namespace vf
              class Control,
              pegtl::apply_mode A,
              pegtl::rewind_mode M,
-             typename Input >
-   impl_result run_parse( Input& in )
+             typename Input,
+             typename... States >
+   impl_result run_parse( Input& in, States&... st )
    {
       impl_result r;
       monitor& m = mon();
       try {
-         const bool ok = pegtl::parse< Top, Action, Control, A, M >( in );
+         const bool ok = pegtl::parse< Top, Action, Control, A, M >( in, st... );
          r.k = ok ? pm::OK : pm::FAIL;
       }
       catch( const pegtl::parse_error& e ) {
